@@ -34,7 +34,9 @@ OnVec(s, e) ==
                     zero_length_field |-> \E i \in DOMAIN e.ds : e.ds[i].len = 0]))
       s2 == RepIf(e.calc # Len(want) - 2, s1, V("length-calculator-differs", s, e, [calc |-> e.calc, want |-> Len(want) - 2]))
       s3 == RepIf(wok /\ (e.gerr # "nil" \/ ~SameAll(e.got, e.ds)), s2, V("parse-differs-from-value", s, e, [gerr |-> e.gerr]))
-  IN RepIf(wok /\ e.gerr = "nil" /\ (e.goff # Len(want) \/ \E i \in DOMAIN e.got : i \in DOMAIN e.ds /\ e.got[i].len # Len(Body(e.ds[i]))), s3,
+      \* got2: the same bytes parsed again after every byte slice of the first result was overwritten by its owner
+      s4 == RepIf(wok /\ e.gerr = "nil" /\ "got2" \in DOMAIN e /\ ~SameAll(e.got2, e.ds), s3, V("parse-depends-on-earlier-results", s, e, [n |-> Len(e.got2)]))
+  IN RepIf(wok /\ e.gerr = "nil" /\ (e.goff # Len(want) \/ \E i \in DOMAIN e.got : i \in DOMAIN e.got /\ i \in DOMAIN e.ds /\ e.got[i].len # Len(Body(e.ds[i]))), s4,
            V("parsed-length-or-offset", s, e, [goff |-> e.goff, want |-> Len(want)]))
 
 OnMal(s, e) ==
